@@ -189,7 +189,11 @@ Definition stream_in (t : table) (im : image) : table * out :=
   (* lt.minimum_load_factor(mlf); lt.maximum_hashpower(mhp) : validated setters *)
   let t5 := set_mlf t4 (imlfn im) (imlfd im) in
   let '(t6, o) := set_mhp_op t5 (imhp im) in
-  (t6, o).
+  (* lt.bump_resize_counter(): reached only if the validated setter did not throw *)
+  match o with
+  | [RNone] => (set_rc t6 (wrap64 (rc t6 + 1)), o)
+  | _ => (t6, o)
+  end.
 
 (* add_locks_from_other *)
 Definition add_locks_from_other (t other : table) : table :=
@@ -403,11 +407,11 @@ Definition step_some (w : world) (a : nat) (s : tslot) (o : op) : world * out :=
         | None => (w, exn_out EUnmodelled)
         | Some sb =>
           let u := tb sb in
-          (* swap(): hash_fn_, eq_fn_, buckets_, all_locks_, minimum_load_factor_, maximum_hashpower_,
-             max_num_worker_threads_, resize_counter_ -- exactly the members the source swaps *)
-          let t' := {| cur := cur u; old := old t; locks := locks u; nrem := nrem t; rc := rc u;
+          (* swap(): hash_fn_, eq_fn_, buckets_, old_buckets_, all_locks_, the lazy-rehash counter,
+             minimum_load_factor_, maximum_hashpower_, max_num_worker_threads_, resize_counter_ *)
+          let t' := {| cur := cur u; old := old u; locks := locks u; nrem := nrem u; rc := rc u;
                        mlfn := mlfn u; mlfd := mlfd u; mhp := mhp u; workers := workers u |} in
-          let u' := {| cur := cur t; old := old u; locks := locks t; nrem := nrem u; rc := rc t;
+          let u' := {| cur := cur t; old := old t; locks := locks t; nrem := nrem t; rc := rc t;
                        mlfn := mlfn t; mlfd := mlfd t; mhp := mhp t; workers := workers t |} in
           if Nat.eqb a b then (w, [RNone])
           else (put_tab (put_t w a s t') b (Some {| tb := u'; active := active sb |}), [RNone])
